@@ -803,7 +803,22 @@ fn check_case(sw: &Sweep, case: &[u8], kf: &[KnownFinding], sentences: &[String]
     st.count(&format!("accepted_{:?}", sw.kind));
     if sw.name.starts_with("user-after-mapping/") {
         // connection ids within the connector: an accepted user row's ids are below the connector's dimensions
-        let (nr, nl) = d.verif_conn_dims();
+        // the dimensions the FILES define (not what the built connector claims)
+        let (nr, nl) = match &files.bigram {
+            Some((r, l, _)) => (String::from_utf8_lossy(r).lines().count() + 1, String::from_utf8_lossy(l).lines().count() + 1),
+            None => {
+                let h: Vec<usize> = String::from_utf8_lossy(&files.matrix).lines().next().unwrap_or("").split(' ').filter_map(|x| x.parse().ok()).collect();
+                (h[0], h[1])
+            }
+        };
+        if d.verif_conn_dims() != (nr, nl) {
+            st.violation(Finding {
+                class: "connector-dimensions-differ-from-the-files".into(),
+                what: format!("the connector reports {:?} (right, left) ids, the definition files define {:?} [{}]", d.verif_conn_dims(), (nr, nl), sw.name),
+                replay: replay(json!({})),
+            });
+            return;
+        }
         let txt = String::from_utf8_lossy(case).to_string();
         let cells: Vec<&str> = txt.lines().next().unwrap().split(',').collect();
         let (l, r): (usize, usize) = (cells[1].parse().unwrap(), cells[2].parse().unwrap());
